@@ -21,10 +21,12 @@ pub fn framing_scripts(rng: &mut Rng, nh: usize, allow_lists: bool) -> Vec<Scrip
                 _ => 0,
             };
             let mx = if rng.chance(1, 4) { 5 } else { 2 };
-            let nd = 1 + rng.usize(mx);
+            // now and then one unit with more data elements than an 8-bit count holds
+            let many = rng.chance(1, 120);
+            let nd = if many { 254 + rng.usize(50) } else { 1 + rng.usize(mx) };
             let mut emit = vec![];
             while emit.len() < nd {
-                let v = gen_val(rng);
+                let v = if many { Val::U8(rng.usize(10) as u8) } else { gen_val(rng) };
                 if !allow_lists && matches!(v, Val::ListI32(_)) {
                     continue;
                 }
@@ -32,7 +34,7 @@ pub fn framing_scripts(rng: &mut Rng, nh: usize, allow_lists: bool) -> Vec<Scrip
                     emit.push(v);
                 }
             }
-            Script { id: i as u32, omnivore: true, headers: (0..nhd).map(|_| *rng.pick(RESP_HEADERS)).collect(), emit, ..Default::default() }
+            Script { id: i as u32, omnivore: true, tolerant: rng.chance(1, 4), headers: (0..nhd).map(|_| *rng.pick(RESP_HEADERS)).collect(), emit, ..Default::default() }
         })
         .collect()
 }
